@@ -33,6 +33,9 @@ pub enum AckOrder {
     InOrder,
     Reversed,
     Random,
+    /// PUBACKs strictly oldest first; PUBRECs and PUBCOMPs at any moment (the
+    /// two QoS 2 round trips overtake and are overtaken by QoS 1 acks).
+    PerQos,
 }
 
 #[derive(Clone, Copy, Debug, PartialEq, Eq)]
@@ -192,6 +195,12 @@ impl Cfg {
                     c.v5 = false;
                     c.w_req = *ch.choose(&[[1, 8, 0, 0, 0], [0, 1, 0, 0, 0], [1, 8, 0, 1, 0], [0, 6, 2, 0, 0]]);
                     c.order = AckOrder::InOrder;
+                    // no new draw (the choice stream of every other run is
+                    // unchanged): half of the mixed-QoS ordered runs let QoS 2
+                    // flows complete around unacknowledged QoS 1 publishes
+                    if c.w_req[2] > 0 && rng_seed % 2 == 0 {
+                        c.order = AckOrder::PerQos;
+                    }
                 } else {
                     c.w_req = *ch.choose(&[[2, 5, 3, 1, 0], [0, 1, 1, 0, 0]]);
                     c.order = *ch.choose(&[AckOrder::InOrder, AckOrder::Random]);
